@@ -433,10 +433,9 @@ func c15RunHistory(kind drv.Kind, alpha []crashOp, hist []int, res *crashJobResu
 		}
 		m.CreateBucket("aaa")
 	}
-	// warm-up object so that lazily created helper files exist before recording starts
-	w.Do(drv.Req{Method: "PUT", Path: "/aaa/warm", Body: []byte("w")})
-	w.Get("aaa", "warm")
-	w.Do(drv.Req{Method: "DELETE", Path: "/aaa/warm"})
+	// no warm-up: the first operation of a process is the one during which the backend
+	// does its lazy start-up work (s3afero probes the mtime resolution with a scratch
+	// file), and a kill can land there like anywhere else
 	rec.Off = false
 	models := []*model.Store{cloneStore(m)}
 	var hs []string
